@@ -37,6 +37,10 @@ type OpenIDStore interface {
 	// FindByReference finds a Flow by its reference.
 	// If the flow does not exist, it returns nil.
 	FindByReference(ctx context.Context, refType string, reference string) (*Flow, error)
+	// FindAndDeleteReference finds a Flow by its reference and deletes the reference in one step,
+	// so a single-use reference (e.g. pre-authorized code) can be redeemed only once, also by concurrent requests.
+	// If the reference does not exist, it returns nil.
+	FindAndDeleteReference(ctx context.Context, refType string, reference string) (*Flow, error)
 	// DeleteReference deletes the reference from the store.
 	// It does not return an error if it doesn't exist anymore.
 	DeleteReference(ctx context.Context, refType string, reference string) error
@@ -89,6 +93,22 @@ func (o *openidMemoryStore) FindByReference(_ context.Context, refType string, r
 	}
 	var flowID string
 	err := refStore.Get(reference, &flowID)
+	if err != nil {
+		return nil, err
+	}
+	var flow Flow
+	err = flowStore.Get(flowID, &flow)
+	return &flow, err
+}
+
+func (o *openidMemoryStore) FindAndDeleteReference(_ context.Context, refType string, reference string) (*Flow, error) {
+	refStore := o.sessionDatabase.GetStore(TokenTTL, "openid4vci", refType)
+	flowStore := o.sessionDatabase.GetStore(TokenTTL, "openid4vci", "flow")
+	var flowID string
+	err := refStore.GetAndDelete(reference, &flowID)
+	if errors.Is(err, storage.ErrNotFound) {
+		return nil, nil
+	}
 	if err != nil {
 		return nil, err
 	}
